@@ -16,8 +16,8 @@ def stepsOf (t n : Nat) (a : Ans := .ok) : List Act := List.replicate n (.thr t 
     views, transactions, Reset/Close), if some operation has not returned then some goroutine can take a step
     (pending driver calls are steps: they return).  Waiters wait only for an entry whose preparer is running, and
     preparers never wait. -/
-theorem C14_deadlock_free (ops : List Op) (nV : Nat) (sched : List Act) :
-    let s := run (init ops nV) sched
+theorem C14_deadlock_free (ops : List Op) (nV : Nat) (cfg : Cfg) (sched : List Act) :
+    let s := run (init ops nV cfg) sched
     (∃ t, t < s.nT ∧ isFin s t = false) → ∃ t a, t < s.nT ∧ (act s (.thr t a)).isSome = true := by
   intro s ⟨t, ht, hf⟩
   by_cases hen : ∃ a, (act s (.thr t a)).isSome = true
@@ -28,22 +28,25 @@ theorem C14_deadlock_free (ops : List Op) (nV : Nat) (sched : List Act) :
       cases hact : act s (.thr t a) with
       | none => rfl
       | some s' => exact absurd ⟨a, by simp [hact]⟩ hen
-    obtain ⟨e, hpc, hprep⟩ := blocked_is_waiter s t ht (opPc_reachable ops nV sched) hf hb
-    have he : e < s.nE := (rng_reachable ops nV sched).2 t e hpc
-    obtain ⟨t0, ht0, hown⟩ := own_reachable ops nV sched e he hprep
+    have hinv := inv1_reachable ops nV cfg sched
+    have hop := hinv.2.2.2
+    obtain ⟨e, hpc, hprep⟩ := blocked_is_waiter s t ht hop hf hb
+    have he : e < s.nE := ((hinv.1.1 t).1 e hpc).1
+    obtain ⟨ht0, hown⟩ := hinv.1.2 e he hprep
+    generalize (s.entries e).owner = t0 at ht0 hown
     refine ⟨t0, .ok, ht0, ?_⟩
     -- an owner is always enabled
     have ht0' : t0 < s.nT := ht0
     simp only [act, ht0', if_true, tstep]
-    cases hop : (s.threads t0).op with
+    cases hop' : (s.threads t0).op with
     | reset v =>
-      rcases opPc_reachable ops nV sched t0 v (Or.inl hop) with h1 | h1
+      rcases hop t0 v (Or.inl hop') with h1 | h1
       · rw [h1] at hown; simp [owns] at hown
       · simp only [isFin] at h1; split at h1
         · rename_i hh; rw [hh] at hown; simp [owns] at hown
         · cases h1
     | close v =>
-      rcases opPc_reachable ops nV sched t0 v (Or.inr hop) with h1 | h1
+      rcases hop t0 v (Or.inr hop') with h1 | h1
       · rw [h1] at hown; simp [owns] at hown
       · simp only [isFin] at h1; split at h1
         · rename_i hh; rw [hh] at hown; simp [owns] at hown
@@ -58,12 +61,12 @@ theorem C14_deadlock_free (ops : List Op) (nV : Nat) (sched : List Act) :
     eviction, Transaction entry overwritten by a non-transaction request — the only steps that log a removal)
     plus one if an entry is cached now.  However many goroutines ask at the same time, a second PrepareContext
     for the same text and generation needs a removal in between. -/
-theorem C14_at_most_once (ops : List Op) (nV : Nat) (sched : List Act) (m : Nat) (q : Text) :
-    let s := run (init ops nV) sched
+theorem C14_at_most_once (ops : List Op) (nV : Nat) (cfg : Cfg) (sched : List Act) (m : Nat) (q : Text) :
+    let s := run (init ops nV cfg) sched
     prepCount s m q = removedCount s m q + (if (s.maps m q).isSome then 1 else 0) ∧
     prepCount s m q ≤ removedCount s m q + 1 := by
   intro s
-  have h := acct_reachable ops nV sched m q
+  have h := (inv1_reachable ops nV cfg sched).2.2.1 m q
   refine ⟨h, ?_⟩
   have h' : prepCount s m q = removedCount s m q + (if (s.maps m q).isSome then 1 else 0) := h
   split at h' <;> omega
